@@ -17,6 +17,7 @@ class Ctx:
         self.rules = set()
         self.t0 = time.time()
         self.floor_failures = []
+        self.extra_evals = 0   # rule instances decided over further build configurations (thorough tier)
         self.clause = ""
         self.assumptions = []
         self.trusted = ["rustc nightly HIR/MIR for crate turdb (lib target, default features, cfg(test) off)",
@@ -108,7 +109,7 @@ def finish(ctx, seed=0):
         "level": ctx.level,
         "coverage": {
             "explanation": ctx.clause,
-            "evaluations": len(ctx.obs),
+            "evaluations": len(ctx.obs) + ctx.extra_evals,
             "distinct_nontrivial": distinct,
             "rule": "one evaluation = one rule instance (rule template, function/site key) decided over the MIR/HIR "
                     "facts of the current /repo tree; distinct = distinct (rule,key); non-trivial = the instance's scope "
